@@ -18,8 +18,23 @@ Qed.
 Lemma str_eqb_true a b : str_eqb a b = true <-> a = b.
 Proof. apply str_eqb_eq. Qed.
 
+(* facts about the regenerated literals (Gen/Visibility.v) that the proofs below rest on *)
 Lemma dots_neq_all : dots <> all_.
-Proof. discriminate. Qed.
+Proof. vm_compute. discriminate. Qed.
+
+Lemma underscore_neq_hash : underscore_c <> hash_c.
+Proof. vm_compute. discriminate. Qed.
+
+Lemma exp_name_dots : exp_name = dots.
+Proof. reflexivity. Qed.
+
+Lemma public_is_whole_graph :
+  is_public (mkLabel [] (s Visibility.public_package) (s Visibility.public_name)).
+Proof. split; reflexivity. Qed.
+
+Lemma gen_literals :
+  dots = s "..." /\ all_ = s "all" /\ slash = s "/" /\ hash_c = 35%N /\ underscore_c = 95%N.
+Proof. repeat split. Qed.
 
 Lemma includes_unfold v l :
   includes v l =
@@ -148,7 +163,7 @@ Proof.
     + assert (Hb : before hash_c n = Some (us ++ o)).
       { rewrite Hn, app_assoc. apply before_app. intros Hin. apply in_app_or in Hin.
         destruct Hin as [Hin|Hin]; [|exact (Hno Hin)].
-        rewrite Forall_forall in Hus. specialize (Hus _ Hin). discriminate Hus. }
+        rewrite Forall_forall in Hus. specialize (Hus _ Hin). exact (underscore_neq_hash Hus). }
       rewrite Hb.
       assert (Hp : has_prefix [underscore_c] n = true).
       { apply has_underscore_prefix. destruct us as [|u us]; [contradiction|].
@@ -166,8 +181,8 @@ Proof.
         -- rewrite app_assoc, <- Hsplit. exact Hn.
         -- apply has_underscore_prefix in Hp. destruct Hp as [y Hy].
            destruct pre as [|a pre'].
-           ++ rewrite Hn in Hy. discriminate Hy.
-           ++ rewrite Hn in Hy. injection Hy as Ha _. subst a. exact (Hcons pre' eq_refl).
+           ++ rewrite Hn in Hy. apply (f_equal (@hd N 0%N)) in Hy. exfalso. exact (underscore_neq_hash (eq_sym Hy)).
+           ++ rewrite Hn in Hy. apply (f_equal (@hd N 0%N)) in Hy. cbn [hd app] in Hy. subst a. exact (Hcons pre' eq_refl).
         -- exact Hus.
         -- intros Hin. apply Hpre. rewrite Hsplit. apply in_or_app. right. exact Hin.
         -- exact Hstart.
@@ -199,7 +214,7 @@ Qed.
 
 Lemma is_experimental_iff st l : is_experimental st l = true <-> experimental st l.
 Proof.
-  unfold is_experimental, experimental, exp_labels.
+  unfold is_experimental, experimental, exp_labels. rewrite exp_name_dots.
   destruct (str_eqb_spec (l_sub l) []) as [Hs|Hs]; cbn [negb].
   - rewrite existsb_exists. split.
     + intros [e [Hin Hinc]]. apply in_map_iff in Hin. destruct Hin as [d [<- Hd]].
@@ -438,3 +453,173 @@ Proof.
       * unfold dep_bad. rewrite Hc. reflexivity.
       * intros ? ? [].
 Qed.
+
+(* the error names the first declared dependency that violates the rules *)
+Theorem check_first st g t dep :
+  resolvable g t -> defect_class st g t = None ->
+  check_visibility st g t = RInvisible dep \/ check_visibility st g t = RTestOnly dep ->
+  exists pre dl d post, t_deps t = pre ++ dl :: post /\ lookup g dl = Some d /\ t_label d = dep
+    /\ dep_bad_spec st t d
+    /\ (forall x dx, In x pre -> lookup g x = Some dx -> ~ dep_bad_spec st t dx).
+Proof.
+  intros Hres Hnd Hr. destruct (check_deps_first st g t (t_deps t) dep Hr)
+    as [pre [dl [d [post [Hds [Hl [Hlab [Hb Hpre]]]]]]]].
+  exists pre, dl, d, post. repeat split; try assumption.
+  - apply dep_bad_sound. exact Hb.
+  - intros x dx Hx Hlx Hbad.
+    assert (Hin : In x (t_deps t)) by (rewrite Hds; apply in_or_app; left; exact Hx).
+    pose proof (deps_defect_None st g t (t_deps t) Hnd x dx Hin Hlx) as Hndx.
+    pose proof (Hpre x dx Hx Hlx) as Hf. rewrite (dep_bad_complete st t dx Hndx Hbad) in Hf. discriminate Hf.
+Qed.
+
+(* ------------------------------------------------------------------ the full statement and its refutations *)
+
+Definition exactness : Prop :=
+  forall st g t, resolvable g t -> (failed (check_visibility st g t) <-> violation st g t).
+
+(* (a) @s//p:y depends on the private //p:priv of the host repository: CanSee compares package NAMES *)
+Definition wa_dep : target := mkTarget (mkLabel (s "") (s "p") (s "priv")) [] false false [].
+Definition wa_t : target := mkTarget (mkLabel (s "s") (s "p") (s "y")) [] false false [t_label wa_dep].
+
+Lemma wa_passes : check_visibility [] [wa_dep] wa_t = ROk.
+Proof. vm_compute. reflexivity. Qed.
+
+Lemma wa_resolvable : resolvable [wa_dep] wa_t.
+Proof. intros dl [<-|[]]. exists wa_dep. vm_compute. reflexivity. Qed.
+
+Lemma wa_violation : violation [] [wa_dep] wa_t.
+Proof.
+  exists (t_label wa_dep), wa_dep. split; [left; reflexivity|]. split; [vm_compute; reflexivity|].
+  left. intros [[Hs _] | [_ [[v [o [[] _]]] | [_ [d [[] _]]]]]]. discriminate Hs.
+Qed.
+
+Lemma refuted_same_package_name : ~ exactness.
+Proof.
+  intros H. pose proof (proj2 (H [] [wa_dep] wa_t wa_resolvable) wa_violation) as Hf.
+  rewrite wa_passes in Hf. exact Hf.
+Qed.
+
+(* (b) //p:vis is visible to //q/... of the host repository; @s//q:z is let in: Includes ignores Subrepo *)
+Definition wb_dep : target := mkTarget (mkLabel (s "") (s "p") (s "vis")) [mkLabel (s "") (s "q") dots] false false [].
+Definition wb_t : target := mkTarget (mkLabel (s "s") (s "q") (s "z")) [] false false [t_label wb_dep].
+
+Lemma wb_passes : check_visibility [] [wb_dep] wb_t = ROk.
+Proof. vm_compute. reflexivity. Qed.
+
+Lemma wb_resolvable : resolvable [wb_dep] wb_t.
+Proof. intros dl [<-|[]]. exists wb_dep. vm_compute. reflexivity. Qed.
+
+Lemma wb_violation : violation [] [wb_dep] wb_t.
+Proof.
+  exists (t_label wb_dep), wb_dep. split; [left; reflexivity|]. split; [vm_compute; reflexivity|].
+  left. intros [[_ Hp] | [_ [[v [o [Hin [[Hos _] Hsel]]]] | [_ [d [[] _]]]]]].
+  - discriminate Hp.
+  - destruct Hin as [<-|[]]. destruct Hsel as [[Hpub _] | [Hsub _]].
+    + discriminate Hpub.
+    + cbn in Hsub, Hos. rewrite Hos in Hsub. discriminate Hsub.
+Qed.
+
+Lemma refuted_pattern_other_subrepo : ~ exactness.
+Proof.
+  intros H. pose proof (proj2 (H [] [wb_dep] wb_t wb_resolvable) wb_violation) as Hf.
+  rewrite wb_passes in Hf. exact Hf.
+Qed.
+
+(* (c) a plain target in the experimental tree depends on a test_only target: the restriction is suppressed *)
+Definition wc_dep : target := mkTarget (mkLabel (s "") (s "lib") (s "t")) [mkLabel (s "") (s "") dots] false true [].
+Definition wc_t : target := mkTarget (mkLabel (s "") (s "experimental/u") (s "x")) [] false false [t_label wc_dep].
+Definition wc_st : state := [s "experimental"].
+
+Lemma wc_passes : check_visibility wc_st [wc_dep] wc_t = ROk.
+Proof. vm_compute. reflexivity. Qed.
+
+Lemma wc_resolvable : resolvable [wc_dep] wc_t.
+Proof. intros dl [<-|[]]. exists wc_dep. vm_compute. reflexivity. Qed.
+
+Lemma wc_violation : violation wc_st [wc_dep] wc_t.
+Proof.
+  exists (t_label wc_dep), wc_dep. split; [left; reflexivity|]. split; [vm_compute; reflexivity|].
+  right. repeat split.
+Qed.
+
+Lemma refuted_testonly_experimental : ~ exactness.
+Proof.
+  intros H. pose proof (proj2 (H wc_st [wc_dep] wc_t wc_resolvable) wc_violation) as Hf.
+  rewrite wc_passes in Hf. exact Hf.
+Qed.
+
+(* the classifier recognises each witness as its own class *)
+Lemma witnesses_classified :
+  defect_class [] [wa_dep] wa_t = Some SamePackageNameOtherSubrepo
+  /\ defect_class [] [wb_dep] wb_t = Some PatternMatchesOtherSubrepo
+  /\ defect_class wc_st [wc_dep] wc_t = Some TestOnlyAllowedFromExperimental.
+Proof. vm_compute. repeat split. Qed.
+
+(* ------------------------------------------------------------------ the partial theorem *)
+
+Definition partial_statement : Prop :=
+  (* outside the three classes: exactly the documented rules *)
+  (forall st g t, resolvable g t -> defect_class st g t = None ->
+     (failed (check_visibility st g t) <-> violation st g t))
+  (* always: a build that the rules allow is never rejected *)
+  /\ (forall st g t, resolvable g t -> failed (check_visibility st g t) -> violation st g t)
+  (* outside the three classes: the error names the first offending declared dependency *)
+  /\ (forall st g t dep, resolvable g t -> defect_class st g t = None ->
+        check_visibility st g t = RInvisible dep \/ check_visibility st g t = RTestOnly dep ->
+        exists pre dl d post, t_deps t = pre ++ dl :: post /\ lookup g dl = Some d /\ t_label d = dep
+          /\ (~ visible_spec st (t_label t) d \/ testonly_violation t d)
+          /\ (forall x dx, In x pre -> lookup g x = Some dx ->
+                ~ (~ visible_spec st (t_label t) dx \/ testonly_violation t dx)))
+  (* a single-repository build (every label and pattern in the host repository) outside the
+     experimental tree is in no defect class *)
+  /\ (forall st g t, l_sub (t_label t) = [] -> is_experimental st (t_label t) = false ->
+        (forall dl d, In dl (t_deps t) -> lookup g dl = Some d ->
+           l_sub (t_label d) = [] /\ forall v, In v (t_vis d) -> l_sub v = []) ->
+        defect_class st g t = None).
+
+Lemma single_repo_no_defect st g t :
+  l_sub (t_label t) = [] -> is_experimental st (t_label t) = false ->
+  (forall dl d, In dl (t_deps t) -> lookup g dl = Some d ->
+     l_sub (t_label d) = [] /\ forall v, In v (t_vis d) -> l_sub v = []) ->
+  defect_class st g t = None.
+Proof.
+  intros Hs He Hall. unfold defect_class.
+  assert (Hgen : forall ds, (forall dl, In dl ds -> In dl (t_deps t)) -> deps_defect st g t ds = None).
+  { induction ds as [|dl ds IH]; intros Hsub; cbn [deps_defect]; [reflexivity|].
+    assert (IH' : deps_defect st g t ds = None) by (apply IH; intros x Hx; apply Hsub; right; exact Hx).
+    destruct (lookup g dl) as [d|] eqn:Hl; [|exact IH'].
+    destruct (Hall dl d (Hsub dl (or_introl eq_refl)) Hl) as [Hds Hvs].
+    unfold dep_defect. rewrite Hs, Hds, str_eqb_refl. cbn [negb]. rewrite andb_false_r.
+    assert (Hex : existsb (fun v => includes v (parent (t_label t)) && negb (is_publicb v)
+                                    && negb (str_eqb (l_sub v) [])) (t_vis d) = false).
+    { destruct (existsb _ (t_vis d)) eqn:Hex; [|reflexivity].
+      apply existsb_exists in Hex. destruct Hex as [v [Hin Hv]]. rewrite (Hvs v Hin) in Hv.
+      cbn in Hv. rewrite andb_false_r in Hv. discriminate. }
+    rewrite Hex, He, andb_false_r. exact IH'. }
+  apply Hgen. auto.
+Qed.
+
+Theorem partial_holds : partial_statement.
+Proof.
+  split; [exact check_exact|]. split; [exact check_sound|]. split; [|exact single_repo_no_defect].
+  intros st g t dep Hres Hnd Hr. exact (check_first st g t dep Hres Hnd Hr).
+Qed.
+
+(* non-vacuity material: a single-repository tree with shared-prefix siblings and a hidden child *)
+Definition ex_graph : graph :=
+  [ mkTarget (mkLabel [] (s "p") (s "lib")) [mkLabel [] (s "p/q") all_; mkLabel [] (s "pf") dots] false false [];
+    mkTarget (mkLabel [] (s "third_party") (s "mock")) [mkLabel [] [] dots] false true [];
+    mkTarget (mkLabel [] (s "p/q/r") (s "deep")) [mkLabel [] (s "p/q") (s "bin")] false false [] ].
+(* pfoo is a textual, not a path, extension of pf: //pfoo:x is NOT covered by //pf/... *)
+Definition ex_bad : target :=
+  mkTarget (mkLabel [] (s "pfoo") (s "x")) [] false false [mkLabel [] (s "p") (s "lib")].
+(* the hidden child _bin#pex of //p/q:bin sees what //p/q:bin may see *)
+Definition ex_good : target :=
+  mkTarget (mkLabel [] (s "p/q") (s "_bin#pex")) [] false false
+           [mkLabel [] (s "p") (s "lib"); mkLabel [] (s "p/q/r") (s "deep")].
+Definition ex_test : target :=
+  mkTarget (mkLabel [] (s "p/q") (s "bin_test")) [] true false
+           [mkLabel [] (s "third_party") (s "mock"); mkLabel [] (s "p") (s "lib")].
+Definition ex_prod : target :=
+  mkTarget (mkLabel [] (s "p/q") (s "bin")) [] false false
+           [mkLabel [] (s "p") (s "lib"); mkLabel [] (s "third_party") (s "mock")].
